@@ -41,9 +41,13 @@ MODELLED = ('image._standardize_frame_index, get_raw_frame (native byte range in
             'level); frame.decode_frame native branch (bit window, little-endian words, BitsStored correction, '
             'planar configuration handed to the one-frame dataset); in-memory image with pydicom\'s cache of the '
             'decoded array (Dataset.pixel_array validation, reset on PixelData assignment) under histories of reads '
-            'and edits: get_stored_frame / get_stored_frames / pixel_array / get_raw_frame / decode_frame(raw)')
+            'and edits: get_stored_frame / get_stored_frames / pixel_array / get_raw_frame / decode_frame(raw); '
+            'the same for a lazily read image (Image.pixel_array lazy branch caching self._pixel_array without '
+            'validation); encapsulated streams at BYTE level (fragment payloads, _build_bot marker detection FF D8 / '
+            'FF 4F, b"".join(fragments)) through ImageFileReader.read_frame_raw and through hd.imread(lazy).get_raw_frame; '
+            'native read_frame_raw on the bytes of the file (_read_metadata header_offset 8 / 12, trailing elements)')
 STRATA = ['native', 'index', 'reader_index', 'reader_neg', 'raw422', 'encaps', 'encaps_bad', 'codec', 'codec1', 'fixture',
-          'planar', 'history']
+          'planar', 'history', 'lazy_history']
 NOT_EXECUTED = ['JPEG 2000 fixtures (no openjpeg codec installed, none decodable here)',
                 'big-endian transfer syntaxes (rejected by _check_little_endian)']
 RULE = ('native: BitsAllocated 1/8/16/32 x signed x 1|3 samples x 1..6 frames, rows/cols 1..7 (every residue of '
@@ -61,7 +65,13 @@ RULE = ('native: BitsAllocated 1/8/16/32 x signed x 1|3 samples x 1..6 frames, r
         '(pixel_array, get_stored_frame, get_stored_frames, get_raw_frame, decode_frame(raw)) and edits '
         '(PixelData assigned, PixelData element value replaced in place, PixelRepresentation / BitsStored / '
         'Rows<->Columns / PlanarConfiguration changed), every kind of read first after every kind of edit with '
-        'a warm and a cold cache; values, dtype and shape observed. non-trivial = more than one frame or a '
+        'a warm and a cold cache; values, dtype and shape observed; NumberOfFrames / BitsAllocated changed together '
+        'with a PixelData of the matching length. lazy_history: the same reads on a lazily read image (bytes / path / '
+        'file object / BytesIO) with header edits (PixelRepresentation, BitsStored, Rows<->Columns, '
+        'PlanarConfiguration), every kind of read first after an edit with pixel_array called before the edit (warm: '
+        'the finding C05_lazy_history_refuted) and not (cold: must be fresh). encaps / encaps_bad: returned BYTES '
+        'compared, reader and lazily read Image (frame numbers and indices); reader_index: 40 % of the files carry a '
+        'Data Set Trailing Padding element after PixelData. non-trivial = more than one frame or a '
         'rejected request (history: at least one edit)')
 
 _TMP = None
@@ -167,7 +177,7 @@ def _encaps_case(rng, bad):
         frames.append(frs)
     table = rng.choice(['basic', 'basic', 'empty', 'empty', 'eot', 'wrong_len'])
     c = {'frames': frames, 'n': n, 'table': table, 'ts': rng.choice(['rle', 'jpegls']),
-         'idx': list(range(0, n + 2))}
+         'idx': list(range(0, n + 2)), 'img_ai': rng.random() < 0.5}
     if bad:
         b = rng.choice(['odd', 'zero', 'n_mismatch', 'eot_len', 'no_items', 'bot_offsets_shifted'])
         c['bad'] = b
@@ -205,12 +215,14 @@ def _planar_fields(rng, small=False):
     return f
 
 
-HEADER_KEYS = ('bs', 'signed', 'rows', 'cols', 'planar')
+HEADER_KEYS = ('bs', 'signed', 'rows', 'cols', 'planar', 'n', 'bits')
 
 
-def _history_case(rng):
+def _history_case(rng, lazy=False):
     """In-memory image + a sequence of reads and edits.  Edits carry the complete new value
-    (PixelData bytes / header fields), so any sub-sequence of the ops is a valid history."""
+    (PixelData bytes / header fields), so any sub-sequence of the ops is a valid history.
+    lazy: the image is read lazily; only header edits that keep the frame size, BitsAllocated and
+    NumberOfFrames (the reader computes its offset table once, when the file is opened)."""
     if rng.random() < 0.3:
         f = _planar_fields(rng, small=True)
     else:
@@ -219,13 +231,14 @@ def _history_case(rng):
         f['n'] = min(f['n'], 4)
         f['pd'] = bytes(rng.randrange(256) for _ in range(_pd_len(f['bits'], f['rows'] * f['cols'] * f['spp'], f['n']))).hex()
     f['single_iod'] = False
-    f['src'] = rng.choice(['dataset', 'bytes', 'path'])
+    f['src'] = rng.choice(['bytes', 'path', 'fileobj', 'bytesio'] if lazy else ['dataset', 'bytes', 'path'])
     f['ts'] = rng.choice(['explicit', 'implicit'])
     f.setdefault('planar', 0)
-    n = f['n']
+    n0 = f['n']
     cur = {k: f[k] for k in HEADER_KEYS}
 
     def num():
+        n = cur['n']
         ai = rng.random() < 0.4
         if rng.random() < 0.12:
             return rng.choice([-1, 0, n, n + 1]), ai
@@ -235,6 +248,7 @@ def _history_case(rng):
         kind = kind or rng.choice(['one', 'one', 'batch', 'whole', 'raw', 'decraw'])
         if kind == 'whole':
             return ['whole']
+        n = cur['n']
         if kind == 'batch':
             if rng.random() < 0.3:
                 return ['batch', None, False]
@@ -247,7 +261,13 @@ def _history_case(rng):
         return [kind, fnum, ai]
 
     def edit():
-        opts = ['inplace', 'inplace', 'assign']
+        opts = [] if lazy else ['inplace', 'inplace', 'assign']
+        if n0 > 1 and not lazy:
+            opts.append('frames')
+        if f['bits'] >= 8 and not lazy:
+            opts.append('bits')
+        if lazy and f['bits'] == 1 and cur['rows'] == cur['cols']:
+            return [read()]         # nothing can be edited on a square bit-packed lazily read image
         if f['bits'] > 1:
             opts += ['signed', 'signed', 'bs']
         if cur['rows'] != cur['cols']:
@@ -255,18 +275,29 @@ def _history_case(rng):
         if f['spp'] == 3 and f['bits'] > 1:
             opts += ['planar', 'planar']
         e = rng.choice(opts)
+        def new_pd(kind):
+            ln = _pd_len(cur['bits'], f['rows'] * f['cols'] * f['spp'], cur['n'])
+            return [kind, bytes(rng.randrange(256) for _ in range(ln)).hex()]
         if e in ('inplace', 'assign'):
-            ln = _pd_len(f['bits'], f['rows'] * f['cols'] * f['spp'], n)
-            return [e, bytes(rng.randrange(256) for _ in range(ln)).hex()]
+            return [new_pd(e)]
+        if e in ('frames', 'bits'):
+            # NumberOfFrames / BitsAllocated change together with a PixelData of the matching length (pydicom
+            # returns EXTRA frames when PixelData holds more whole frames than NumberOfFrames says)
+            if e == 'frames':
+                cur['n'] = rng.choice([m for m in range(1, n0 + 2) if m != cur['n']])
+            else:
+                cur['bits'] = rng.choice([b for b in (8, 16, 32) if b != cur['bits']])
+                cur['bs'] = cur['bits'] if rng.random() < 0.6 else rng.randint(1, cur['bits'])
+            return [['header', dict(cur)], new_pd(rng.choice(['inplace', 'inplace', 'assign']))]
         if e == 'signed':
             cur['signed'] = 1 - cur['signed']
         elif e == 'bs':
-            cur['bs'] = rng.choice([b for b in range(1, f['bits'] + 1) if b != cur['bs']])
+            cur['bs'] = rng.choice([b for b in range(1, cur['bits'] + 1) if b != cur['bs']])
         elif e == 'swap':
             cur['rows'], cur['cols'] = cur['cols'], cur['rows']
         elif e == 'planar':
             cur['planar'] = 1 - cur['planar']
-        return ['header', dict(cur)]
+        return [['header', dict(cur)]]
 
     ops = []
     for _ in range(rng.choice([1, 1, 2])):
@@ -279,7 +310,7 @@ def _history_case(rng):
         if rng.random() < 0.3:
             ops.append(read())
         for _ in range(rng.choice([1, 1, 2])):
-            ops.append(edit())
+            ops.extend(edit())
         for _ in range(rng.choice([1, 2, 3])):
             ops.append(read())
     f['ops'] = ops
@@ -306,6 +337,8 @@ def gen_cases(rng, tier):
     for _ in range(30 * k):
         f = _native_fields(rng)
         f['src'] = rng.choice(['bytes', 'path', 'fileobj'])
+        if rng.random() < 0.4:      # something follows the Pixel Data element in the file
+            f['trail'] = bytes(rng.randrange(256) for _ in range(2 * rng.randint(1, 4))).hex()
         cases.append(dict(f, kind='reader_index', idx=list(range(0, f['n'] + 2))))
         if rng.random() < 0.5:
             cases.append(dict(f, kind='reader_neg', idx=list(range(-f['n'] - 1, 0))))
@@ -382,6 +415,27 @@ def gen_cases(rng, tier):
                     cases.append(dict(h, kind='history'))
     for _ in range(40 * k):
         cases.append(dict(_history_case(rng), kind='history'))
+    # the same on a lazily read image: every kind of read first after a header edit, with the whole
+    # array cached before the edit (warm) and not (cold); then random histories
+    for first in ('one', 'batch', 'whole', 'raw', 'decraw'):
+        for warm in (True, False):
+            for _ in range(k):
+                for _ in range(50):
+                    h = _history_case(rng, lazy=True)
+                    if h['bits'] > 1 or h['rows'] != h['cols']:
+                        break
+                cur = {kk: h[kk] for kk in HEADER_KEYS}
+                if h['bits'] > 1:
+                    cur['signed'] = 1 - cur['signed']
+                else:
+                    cur['rows'], cur['cols'] = cur['cols'], cur['rows']
+                fnum = rng.randint(1, h['n'])
+                rd = {'whole': ['whole'], 'batch': ['batch', None, False]}.get(first, [first, fnum, False])
+                h['ops'] = ([['whole']] if warm else [['one', fnum, False]]) + [
+                    ['header', cur], rd, ['one', fnum, False], ['batch', None, False], ['whole'], ['one', fnum, False]]
+                cases.append(dict(h, kind='lazy_history'))
+    for _ in range(24 * k):
+        cases.append(dict(_history_case(rng, lazy=True), kind='lazy_history'))
     for name in ('sm_image_jpegls.dcm', 'sm_image_jpegls_nobot.dcm', 'sm_image.dcm', 'sm_image_control.dcm',
                  'seg_image_ct_binary.dcm', 'ct_image.dcm'):
         for src in (['path', 'bytes'] if tier == 'quick' else SOURCES[1:]):
@@ -444,6 +498,25 @@ def _file_bytes(ds):
     b = io.BytesIO()
     ds.save_as(b)
     return b.getvalue()
+
+
+def _element_bytes(tag, vr, value, implicit):
+    """Encoding of one OB/OW element, written by hand (independent of pydicom's writer)."""
+    t = struct.pack('<HH', *tag)
+    if implicit:
+        return t + struct.pack('<L', len(value)) + value
+    return t + vr.encode() + b'\0\0' + struct.pack('<L', len(value)) + value
+
+
+def _file_tail(c):
+    """The bytes of the file from the first byte of the Pixel Data element on: the element and,
+    if the case asks for it, a Data Set Trailing Padding element after it."""
+    imp = c['ts'] == 'implicit'
+    pd = bytes.fromhex(c['pd'])
+    tail = _element_bytes((0x7FE0, 0x0010), 'OW' if c['bits'] > 8 else 'OB', pd, imp)
+    if c.get('trail'):
+        tail += _element_bytes((0xFFFC, 0xFFFC), 'OB', bytes.fromhex(c['trail']), imp)
+    return tail
 
 
 class _Opened:
@@ -749,6 +822,8 @@ def run_impl(c):
     k = c['kind']
     if k == 'history':
         return _run_history(c)
+    if k == 'lazy_history':
+        return _run_history(c, lazy=True)
     if k in ('native', 'planar'):
         ds = _native_ds(c)
         n = c['n']
@@ -821,7 +896,11 @@ def run_impl(c):
             op.close()
     if k in ('reader_index', 'reader_neg') and not c.get('enc'):
         ds = _native_ds(c)
+        if c.get('trail'):
+            ds.DataSetTrailingPadding = bytes.fromhex(c['trail'])
         data = _file_bytes(ds)
+        if not data.endswith(_file_tail(c)):
+            raise AssertionError('harness: the file does not end with the expected Pixel Data element bytes')
         op = _Opened(data, c['src'])
         try:
             if c['src'] == 'path':
@@ -841,19 +920,24 @@ def run_impl(c):
     if k in ('encaps', 'encaps_bad', 'reader_neg'):
         ds, bot, eot, frames = _encaps_ds(c)
         data = _file_bytes(ds)
-        frags = [f for fr in frames for f in fr]
 
         def go():
             r = ImageFileReader(DicomBytesIO(data))
             with _Quiet():
                 with r:
                     r.metadata
-                    out = []
-                    for i in c['idx']:
-                        x = _catch(lambda: r.read_frame_raw(i))
-                        out.append(x if isinstance(x, Err) else _locate(x, frags))
-                    return out
-        return _catch(go)
+                    return [_catch(lambda: list(r.read_frame_raw(i))) for i in c['idx']]
+
+        def go_image():
+            # the same file through a lazily read Image: frame number convention + the reader
+            with _Quiet():
+                im = hd_imread(data, lazy_frame_retrieval=True)
+                return [_catch(lambda: list(im.get_raw_frame(f, as_index=c.get('img_ai', True)))) for f in c['idx']]
+        from highdicom import imread as hd_imread
+        out = [_catch(go)]
+        if k != 'reader_neg':
+            out.append(_catch(go_image))
+        return out
     if k in ('codec', 'codec1'):
         c = dict(c)
         try:
@@ -890,14 +974,14 @@ def _std(c, f, ai):
     return f if ai else f - 1
 
 
-def _run_history(c):
-    """One in-memory image, the ops applied in order.  Reads answer [[dtype, frame shape], values]
-    (raw: the bytes), edits answer None."""
+def _run_history(c, lazy=False):
+    """One in-memory (or lazily read) image, the ops applied in order.  Reads answer
+    [[dtype, frame shape], values] (raw: the bytes), edits answer None."""
     import numpy as np
     from highdicom.frame import decode_frame
     ds = _native_ds(c)
     op = _Opened(_file_bytes(ds), c['src'], ds)
-    n = c['n']
+    now = {'n': c['n']}
     keep = []        # replaced values stay alive: pydicom recognises edits by id()
 
     def ans(a, batch):
@@ -910,7 +994,7 @@ def _run_history(c):
         t = o[0]
         if t == 'whole':
             a = im.pixel_array
-            return ans(a[None] if n == 1 else a, True)
+            return ans(a[None] if now['n'] == 1 else a, True)
         if t == 'one':
             return ans(im.get_stored_frame(o[1], as_index=o[2]), False)
         if t == 'batch':
@@ -930,6 +1014,11 @@ def _run_history(c):
             return None
         if t == 'header':
             h = o[1]
+            if h.get('bits', c['bits']) != im.BitsAllocated:
+                keep.append(im.BitsAllocated)
+                im.BitsAllocated = h['bits']
+            if h.get('n', c['n']) != now['n']:
+                im.NumberOfFrames = now['n'] = h['n']
             if im.BitsStored != h['bs']:
                 im.BitsStored, im.HighBit = h['bs'], h['bs'] - 1
             if im.PixelRepresentation != h['signed']:
@@ -943,7 +1032,7 @@ def _run_history(c):
 
     try:
         with _Quiet():
-            im = op.image(False)
+            im = op.image(lazy)
             return [_catch(lambda: do(im, o)) for o in c['ops']]
     finally:
         op.close()
@@ -976,7 +1065,7 @@ def _native_args(c):
 def _cfmt(c, h):
     """cfmt literal: fixed fields from the case c, editable header fields from h."""
     npx = c['rows'] * c['cols'] * c['spp']
-    return (f"(CFmt (Fmt {c['bits']} {h['bs']} {_b(h['signed'])} {npx} {c['n']}) {c['spp']} "
+    return (f"(CFmt (Fmt {h.get('bits', c['bits'])} {h['bs']} {_b(h['signed'])} {npx} {h.get('n', c['n'])}) {c['spp']} "
             f"{_b(h.get('planar', 0))} {h['rows']})")
 
 
@@ -986,26 +1075,30 @@ def coq_term(c):
         return f'(run_native {_native_args(c)})'
     if k == 'planar':
         return f"(run_native_c {_cfmt(c, c)} {zl(bytes.fromhex(c['pd']))})"
-    if k == 'history':
+    if k in ('history', 'lazy_history'):
+        lz = k == 'lazy_history'
         cur = {kk: c.get(kk, 0) for kk in HEADER_KEYS}
         ops = []
         for o in c['ops']:
             t = o[0]
+            n = cur['n']
             if t == 'whole':
-                ops.append('OWhole')
+                ops.append('LWhole' if lz else 'OWhole')
             elif t == 'batch':
-                fs, ai = (list(range(1, c['n'] + 1)), False) if o[1] is None else (o[1], o[2])
+                fs, ai = (list(range(1, n + 1)), False) if o[1] is None else (o[1], o[2])
                 if o[1] is None and o[2]:
-                    fs, ai = list(range(c['n'])), True
-                ops.append(f'(OBatch {zl(fs)} {_b(ai)})')
+                    fs, ai = list(range(n)), True
+                ops.append(f"({'LBatch' if lz else 'OBatch'} {zl(fs)} {_b(ai)})")
             elif t in ('one', 'raw', 'decraw'):
-                ops.append(f"({ {'one': 'OOne', 'raw': 'ORaw', 'decraw': 'ODecodeRaw'}[t]} {zlit(o[1])} {_b(o[2])})")
+                nm = {'one': 'One', 'raw': 'Raw', 'decraw': 'DecodeRaw'}[t]
+                ops.append(f"({'L' if lz else 'O'}{nm} {zlit(o[1])} {_b(o[2])})")
             elif t in ('assign', 'inplace'):
                 ops.append(f"({'OAssign' if t == 'assign' else 'OInplace'} {zl(bytes.fromhex(o[1]))})")
             elif t == 'header':
-                cur = dict(o[1])
-                ops.append(f'(OHeader {_cfmt(c, cur)})')
-        return f"(run_history {_cfmt(c, c)} {zl(bytes.fromhex(c['pd']))} [{'; '.join(ops)}])"
+                cur = dict(cur, **o[1])
+                ops.append(f"({'LHeader' if lz else 'OHeader'} {_cfmt(c, cur)})")
+        return (f"({'run_lazy_history' if lz else 'run_history'} {_cfmt(c, c)} {zl(bytes.fromhex(c['pd']))} "
+                f"[{'; '.join(ops)}])")
     if k == 'raw422':
         m = f"(Fmt 8 8 false {c['rows'] * c['cols'] * 2} {c['n']})"
         pd = zl(bytes.fromhex(c['pd']))
@@ -1017,13 +1110,17 @@ def coq_term(c):
         return f"(run_native_one {_native_args(c)} {zlit(c['f'])} {_b(c['as_index'])})"
     if k in ('reader_index', 'reader_neg') and not c.get('enc'):
         npx = c['rows'] * c['cols'] * c['spp']
-        return f"(run_reader_native {c['bits']} {npx} {c['n']} {zl(bytes.fromhex(c['pd']))} {zl(c['idx'])})"
+        return (f"(run_reader_file {_b(c['ts'] == 'implicit')} {c['bits']} {npx} {c['n']} {zl(_file_tail(c))} "
+                f"{zl(c['idx'])})")
     if k in ('encaps', 'encaps_bad', 'reader_neg'):
         _, bot, eot, frames = _encaps_bytes(c)
-        its = '[' + '; '.join(f"({len(f)}, {_b(f[:2] in (b'\xff\xd8', b'\xff\x4f'))})"
-                              for fr in frames for f in fr) + ']'
+        pls = '[' + '; '.join(zl(f) for fr in frames for f in fr) + ']'
         e = 'None' if eot is None else f'(Some {zl(eot)})'
-        return f"(run_encaps {e} {zl(bot)} {its} {c['n']} {zl(c['idx'])})"
+        t = f"run_encaps_bytes {e} {zl(bot)} {pls} {c['n']} {zl(c['idx'])}"
+        if k == 'reader_neg':
+            return f'(VL [{t}])'
+        return (f"(VL [{t}; run_encaps_image {e} {zl(bot)} {pls} {c['n']} {zl(c['idx'])} "
+                f"{_b(c.get('img_ai', True))}])")
     return None
 
 
@@ -1059,7 +1156,7 @@ def _expect_index(c):
 def oracle(c, out):
     import numpy as np
     k = c['kind']
-    if k == 'history':
+    if k in ('history', 'lazy_history'):
         return _oracle_history(c, out)
     if k in ('native', 'planar'):
         dtype, one, lz_ok, cached_ok, whole_ok, raws, raws_ok = out
@@ -1115,6 +1212,8 @@ def oracle(c, out):
             return 'YBR_FULL_422 stored frames differ between access paths / pydicom'
         return None
     if k == 'reader_neg':
+        if c.get('enc'):
+            out = out[0]
         if isinstance(out, Err):
             return None
         for i, o in zip(c['idx'], out):
@@ -1135,26 +1234,34 @@ def oracle(c, out):
                 return f'ImageFileReader.read_frame_raw({i}) on {n} frames returned data (wrapped) instead of rejecting'
         return None
     if k == 'encaps':
-        # well-formed stream with a usable table: frame i = its own fragments
-        if isinstance(out, Err):
-            return _encaps_expect_open_failure(c, out)
-        m = _encaps_expect_open_failure(c, None)
-        if m is None and _encaps_open_must_fail(c):
-            return 'reader opened a stream whose frames cannot be told apart'
-        starts, pos = [], 0
-        for fr in c['frames']:
-            starts.append(pos)
-            pos += sum(len(x) // 2 for x in fr)
-        for i, o in zip(c['idx'], out):
-            if 0 <= i < c['n']:
-                want = [starts[i], sum(len(x) // 2 for x in c['frames'][i])]
-                if o != want:
-                    return f'read_frame_raw({i}) = payload bytes [start, length] {o}, expected {want}'
-            elif not isinstance(o, Err):
-                return f'ImageFileReader.read_frame_raw({i}) on {c["n"]} frames returned data (wrapped) instead of rejecting'
+        # well-formed stream with a usable table: frame i = its own fragments (bytes, both routes)
+        frags = [bytes.fromhex(x) for fr in c['frames'] for x in fr]
+        for route, o_all in zip(('ImageFileReader.read_frame_raw', 'lazy Image.get_raw_frame'), out):
+            if isinstance(o_all, Err):
+                m = _encaps_expect_open_failure(c, o_all)
+                if m:
+                    return f'{route}: {m}'
+                continue
+            if _encaps_open_must_fail(c):
+                return f'{route}: opened a stream whose frames cannot be told apart'
+            img = route.startswith('lazy')
+            for f, o in zip(c['idx'], o_all):
+                i = f if (not img or c.get('img_ai', True)) else f - 1
+                if 0 <= i < c['n']:
+                    want = b''.join(bytes.fromhex(x) for x in c['frames'][i])
+                    if isinstance(o, Err) or bytes(o) != want:
+                        got = o if isinstance(o, Err) else _locate(bytes(o), frags)
+                        return f'{route}({f}) returned {got} (payload [start, length]), expected the {len(want)} bytes of frame index {i}'
+                elif not isinstance(o, Err):
+                    return f'{route}({f}) on {c["n"]} frames returned data (wrapped) instead of rejecting'
+                elif img and o.kind != 'IndexError':
+                    return f'{route}({f}) outside the image raised {o.kind}, expected IndexError'
         return None
     if k == 'encaps_bad':
         # malformed: must not silently return a wrong frame for an index it answers
+        if isinstance(out[1], Err) != isinstance(out[0], Err):
+            return f'reader and lazily read image disagree on whether the file can be opened: {out[0]} / {out[1]}'
+        out = out[0]
         if isinstance(out, Err):
             return None
         b = c['bad']
@@ -1194,11 +1301,12 @@ def _oracle_history(c, out):
     """Every read must answer from the image as it is at that moment: values straight from the current
     PixelData bytes under the current header (numpy only), current dtype and frame shape."""
     cur = dict(c)
-    n, spp, bits = c['n'], c['spp'], c['bits']
+    spp = c['spp']
     npx = c['rows'] * c['cols'] * spp
     hist = []
     for j, (o, got) in enumerate(zip(c['ops'], out)):
         t = o[0]
+        n, bits = cur['n'], cur['bits']
         hist.append(t if t != 'header' else 'header' + str({k: v for k, v in o[1].items() if cur.get(k) != v}))
         where = f'op {j} {t}{o[1:] if t not in ("assign", "inplace", "header") else ""} after [{", ".join(hist[:-1])}]'
         if t in ('assign', 'inplace'):
@@ -1271,7 +1379,7 @@ def nontrivial(c, out):
     k = c['kind']
     if k in ('native', 'raw422', 'planar'):
         return c['n'] > 1
-    if k == 'history':
+    if k in ('history', 'lazy_history'):
         return any(o[0] in ('assign', 'inplace', 'header') for o in c['ops'])
     if k in ('index', 'reader_index', 'reader_neg'):
         return True
@@ -1284,7 +1392,7 @@ def nontrivial(c, out):
 
 def shrink(c):
     k = c['kind']
-    if k == 'history':
+    if k in ('history', 'lazy_history'):
         ops = c['ops']
         for i in range(len(ops)):
             yield dict(c, ops=ops[:i] + ops[i + 1:])
@@ -1328,8 +1436,26 @@ def shrink(c):
 
 
 # D50 (ImageFileReader.read_frame_raw wrapped negative indices) was found by this check and is fixed;
-# the 'reader_neg' stream keeps -1 .. -n-1 in the must-reject set.  No open findings.
-FINDINGS = {}
+# the 'reader_neg' stream keeps -1 .. -n-1 in the must-reject set.
+def _lazy_edit_after_whole(c):
+    """Signature of the lazy-image finding (C05_lazy_history_refuted): on a lazily read image a header edit
+    that changes something, made after pixel_array was called, is ignored by every later read."""
+    if c.get('kind') != 'lazy_history':
+        return False
+    cached, cur = False, {k: c.get(k) for k in HEADER_KEYS}
+    for o in c['ops']:
+        if o[0] == 'whole':
+            cached = True
+        elif o[0] == 'header':
+            changed = any(cur.get(k) != v for k, v in o[1].items())
+            cur.update(o[1])
+            if cached and changed:
+                return True
+    return False
+
+
+# active only while the id is recorded as "open" for C05 in KNOWN_FINDINGS.json
+FINDINGS = {'D102': _lazy_edit_after_whole}
 
 
 def extra_obligations(work):
